@@ -10,7 +10,10 @@ AccOptions == { <<k, f>> : k \in Keys2, f \in {"string", "view"} }
 
 \* C15: every creation parameter of the main context, then at most one sub-context with every parameter
 Init15 == InitWith(BOOLEAN, BOOLEAN, Cookies, Headers)
-Next15 == /\ Len(ctxs) = 1
+\* (sub-contexts are created under the main contexts that use the plain spellings: the spellings of the two creations are
+\* independent, so their product adds cases without adding behaviour)
+PlainMain == LET m == hist[1] IN ~m.custom /\ m.cookie.sp \in {"other", "last", "unknown"} /\ (Len(m.header) < 2 \/ m.hsp = "spaced")
+Next15 == /\ Len(ctxs) = 1 /\ PlainMain
           /\ \E parent \in {0, 1}, cookieOn \in BOOLEAN,
                 cookie \in (IF SubVariants = "full" THEN Cookies ELSE { [state |-> "absent", l |-> None, sp |-> "prefix"], [state |-> "invalid", l |-> None, sp |-> "case"], [state |-> "valid", l |-> "de", sp |-> "decoy"] }),
                 initial \in (IF SubVariants = "full" THEN Locs \cup {None} ELSE {None, "fr"}),
